@@ -202,6 +202,51 @@ def layout_text(op):
     return LAYOUT
 
 
+def make_coptions(api, op):
+    copt = op.get("copt")
+    if not copt:
+        return None
+    co = api.COptions()
+    co.set("freestanding", bool(copt.get("freestanding")))
+    co.set("std", copt.get("std", "c99"))
+    co.set("trigraphs", bool(copt.get("trigraphs")))
+    for name, value in copt.get("defines", []):
+        co.add_define(name, value)
+    return co
+
+
+class RecipeResult:
+    """What a build recipe produced: stands in for the object of the op."""
+
+    def __init__(self, text):
+        self.text = text
+        self.images = []
+
+    def save(self, f):
+        f.write(self.text)
+
+
+def run_recipe(api, op):
+    """A build directory that is wiped and rewritten for every recipe (one
+    build directory, many builds - like a developer's tree), then built with
+    ppci.api.construct; the files the recipe produces are the output."""
+    import shutil
+    root = os.path.join(job_scratch(), f"build-{os.getpid()}")
+    shutil.rmtree(root, ignore_errors=True)
+    for name, text in op["files"].items():
+        path = os.path.join(root, name)
+        os.makedirs(os.path.dirname(path), exist_ok=True)
+        with open(path, "w") as fh:
+            fh.write(text)
+    os.makedirs(os.path.join(root, "obj"), exist_ok=True)
+    api.construct(os.path.join(root, "build.xml"), op.get("targets", []))
+    out = []
+    for name in op["produced"]:
+        with open(os.path.join(root, name), "rb") as fh:
+            out.append(name + ":" + fh.read().hex())
+    return RecipeResult("\n".join(out))
+
+
 def job_scratch():
     return os.environ.get("VERIF_C30_SCRATCH", "/var/tmp/ppci-verif-c30-files")
 
@@ -252,7 +297,9 @@ def run_op(api, layout_mod, write_elf, op):
             elif kind == "c":
                 obj = api.cc(io.StringIO(op["src"]), op["march"],
                              opt_level=op["opt"], debug=op.get("debug", False),
-                             reporter=rep)
+                             reporter=rep, coptions=make_coptions(api, op))
+            elif kind == "recipe":
+                obj = run_recipe(api, op)
             elif kind == "c3":
                 srcs = [op["src"]] + list(op.get("more_srcs", []))
                 obj = api.c3c([io.StringIO(x) for x in srcs], [], op["march"],
@@ -320,7 +367,8 @@ def run_op(api, layout_mod, write_elf, op):
                     data = f.getvalue()
                 elif kind == "img":
                     lay = layout_mod.Layout.load(io.StringIO(layout_text(op)))
-                    linked = api.link(link_objs, lay, partial_link=False)
+                    linked = api.link(link_objs, lay, partial_link=False,
+                                      extra_symbols=op.get("extra_symbols"))
                     f = io.StringIO()
                     linked.save(f)
                     data = f.getvalue() + "".join(
